@@ -898,6 +898,29 @@ func runK7scen(r *rng, n int) {
 			s.close()
 			emit("k7scen name=panic-in-renamed-of-a-descendant-keeps-serving => efault=%d walked=%d again=%d %s", efault, walked, again, s.be.lifecycle())
 		}
+		// … and likewise a panic in the Renamed notification of the renamed entry itself
+		{
+			s := newK7(r, 1)
+			s.walk(0, 0, 1, p9.ModeDirectory|0755, "d")
+			h2 := s.walk(0, 1, 2, p9.ModeRegular|0644, "x")
+			s.be.mu.Lock()
+			s.be.panicRenH = h2
+			s.be.mu.Unlock()
+			efault, walked := 0, 0
+			s.send(0, 74, map[string]interface{}{"OldDirectory": uint64(1), "OldName": "x", "NewDirectory": uint64(1), "NewName": "y"})
+			if _, rt, e, ok := s.recvReply(0, 4*time.Second); ok && rt == 7 && e == 14 {
+				efault = 1
+			}
+			s.be.mu.Lock()
+			s.be.forceKind = p9.ModeRegular | 0644
+			s.be.mu.Unlock()
+			s.send(0, 110, map[string]interface{}{"fid": uint64(1), "newFID": uint64(5), "Names": []string{"z"}})
+			if _, rt, _, ok := s.recvReply(0, 4*time.Second); ok && rt == 111 {
+				walked = 1
+			}
+			s.close()
+			emit("k7scen name=panic-in-renamed-of-the-moved-entry-keeps-serving => efault=%d walked=%d", efault, walked)
+		}
 		// after a cross-directory rename the fid that travelled with the file and a fid walked to
 		// the new path afterwards are on one path: SetAttr through one excludes GetAttr through the other
 		{
